@@ -70,7 +70,7 @@ func recCase[T any](c *ctx, name string, v T, tr xml.TokenReader, vals func(*T) 
 		return
 	}
 	line := "enc rec " + name + " " + encFVs(vals(&v))
-	r.Line(line, common.EncToks(toks))
+	r.Line(line, common.EncToks(canonOrder(toks)))
 	r.Case(line, true, "model/"+name)
 	var d T
 	pan, derr := safeUnmarshal(p.out, &d)
@@ -262,7 +262,7 @@ func modelCases(c *ctx) {
 			p := guard("TokenReader", func() ([]byte, []xml.Token, error) { return encodeTokens(s.TokenReader()) })
 			if toks, err := reparse(p.out); p.panicked == "" && p.err == nil && err == nil {
 				line := "enc rset " + rsetLine(&s)
-				r.Line(line, common.EncToks(toks))
+				r.Line(line, common.EncToks(canonOrder(toks)))
 				r.Case(line, true, "model/paging.Set")
 				var d paging.Set
 				if pan, derr := safeUnmarshal(p.out, &d); pan == "" {
@@ -285,7 +285,7 @@ func modelCases(c *ctx) {
 			if toks, err := reparse(p.out); p.panicked == "" && p.err == nil && err == nil && len(toks) >= 4 {
 				payload := toks[1 : len(toks)-1] // without the <iq/> wrapper (stanza.IQ.Wrap belongs to C13)
 				line := "enc roster " + rosterLine(&q)
-				r.Line(line, common.EncToks(payload))
+				r.Line(line, common.EncToks(canonOrder(payload)))
 				r.Case(line, true, "model/roster.IQ")
 				var d roster.IQ
 				if pan, derr := safeUnmarshal(p.out, &d); pan == "" {
@@ -316,7 +316,7 @@ func modelCases(c *ctx) {
 			if toks, err := reparse(p.out); p.panicked == "" && p.err == nil && err == nil {
 				if il, jt, ok := infoLine(&i); ok {
 					line := "enc info " + jt + " " + il
-					r.Line(line, common.EncToks(toks))
+					r.Line(line, common.EncToks(canonOrder(toks)))
 					r.Case(line, true, "model/disco.Info")
 				}
 				var d disco.Info
